@@ -3,6 +3,41 @@ import shutil
 import common, rollgen, c13
 
 
+def long_interval_verdict(o):
+    p = o.split(' ')
+    if len(p) < 3 or not p[0].isdigit():
+        return 'bad-observation'
+    if len(p) > 3 and p[3]:
+        return 'a write during the outage panicked or blocked: ' + p[3][:200]
+    if p[2] == '-':
+        return 'ok'       # no suitable interval in this second (cannot happen: 2 h .. 14 d has a divisor of one of six consecutive numbers)
+    if p[0] != p[1] or p[0] == '0':
+        return '%s lines written, %s found after the outage' % (p[0], p[1])
+    return 'ok'
+
+
+def long_interval(run, name, cases):
+    tmp = common.scratch_dir('c19l')
+    try:
+        common.write_lines(tmp + '/c', cases)
+        rc, li = common.run_impl('c19l', tmp + '/c', tmp + '/i', timeout=600)
+        io = common.read_lines(tmp + '/i')
+        run.obligations += 1
+        if rc != 0 or len(io) != len(cases):
+            run.add_violation('harness-error', 'c19l rc=%s %s' % (rc, li[-1000:]), [li[-2000:]], no_input=True)
+            return
+        bad = [(c, o, long_interval_verdict(o)) for c, o in zip(cases, io)]
+        bad = [b for b in bad if b[2] != 'ok']
+        for c, o, v in bad[:3]:
+            run.add_violation('oracle:' + name, v, ['family c19l', 'case ' + c, 'impl ' + o[:800], 'verdict ' + v])
+        if not bad:
+            run.discharged += 1
+        run.stream(name, len(cases), len(cases), False, 'rotation intervals of hours to days (found by search so that their next boundary is seconds away: intervals count from the zero time), 1-4 writers, '
+                   'the directory renamed away across that boundary; oracle: no panic, no blocked call, every line written is in the restored directory. Observed intervals: ' + ', '.join(o.split(' ')[2] for o in io if len(o.split(' ')) > 2))
+    finally:
+        shutil.rmtree(tmp, ignore_errors=True)
+
+
 def check(run):
     rng = run.rng
     quick = run.tier == 'quick'
@@ -13,6 +48,7 @@ def check(run):
     cc = ['%d %d %d 40 %d %d' % (rng.choice([1, 1, 2]), rng.choice([1, 2, 4]), rng.choice([4, 5, 6]), rng.choice([1, 2]), rng.choice([1, 2, 3])) for _ in range(8 if quick else 120)]
     c13.run_concurrent(run, 'c19/outage-concurrent', cc,
         '1-4 concurrent writers, the directory renamed away across 1-3 boundaries and restored; oracle: no panic, no blocked call, every completed write whole and exactly once in the restored directory')
+    long_interval(run, 'c19/long-interval', ['2', '3'] if quick else ['1', '2', '3', '4', '2', '3'])
     tmp = common.scratch_dir('c19x')
     try:
         names = ['file-missing-dir', 'file-closed', 'file-unlinked-dir', 'console-failing', 'console-short-0', 'console-zero-nil', 'console-partial-short', 'console-partial-err',
@@ -43,6 +79,8 @@ def replay(run, path):
         c13.run_concurrent(r, 'c19/replay', cases, 'replay')
     elif any('family c19x' in l for l in lines):
         return 0
+    elif any('family c19l' in l for l in lines):
+        long_interval(r, 'c19/replay', cases)
     else:
         c13.run_sequential(r, 'c19/replay', cases, 'replay')
     for v in r.violations:
